@@ -120,6 +120,19 @@ Definition seq_ok (C : Circuit) (n : nat) (d q : string) (afo : bool) (iv : init
                         (λ nd, match list_find (λ p, p.1.2 = nd) qd with Some (_, p) => w (x0 p.1.1) | None => false end))
           (vals frU).
 
+(* every hypothesis of Properties/C09.v `C09_sequential_unroll_full` as one boolean (iv guards apart): not an obligation, used to measure
+   how much of the generated sequential domain the theorem covers (docs/C09.md; quick tier: all 190 sequential cases) *)
+Definition seq_theorem_guards (C : Circuit) (n : nat) (d q : string) (ign : list string) (ru : bool) (p : string) : bool :=
+  match seq_stripped C d q ign ru with
+  | Ok (CS, sio) => let cs := c_g CS in
+      lint_cleanb C && closedb (c_g C) && acyclicb (c_g C) && bool_decide (flop_names_ok C) && bool_decide (flop_wiring_ok C q) &&
+      negb (bool_decide (d ∈ ign)) && negb (bool_decide (q ∈ ign)) &&
+      lint_cleanb CS && bool_decide (c_bbs CS = ∅) && closedb cs && acyclicb cs &&
+      bool_decide (map_Forall (λ (_ : string) i, n_ty i ≠ BbIn ∧ n_ty i ≠ BbOut ∧ n_ty i ≠ Unsup ∧ n_ty i ≠ NoTy) cs) &&
+      bool_decide (set_Forall (λ x : string, x ≠ "" ∧ starts_digit x = false) (dom cs)) &&
+      bool_decide (free_nodes cs = inputs cs) && (1 <=? n)%nat && sio_okb cs sio && unroll_names_okb cs n sio p
+  | _ => false end.
+
 Fixpoint holds (k : case) : bool :=
   match k with
   | CUnroll C n sio p obs =>
